@@ -309,7 +309,10 @@ theorem fdMid_sim (wm : Bool) (na : Option PyAssetObj) (e : String × PyDictA) (
   · intro err hr
     cases hg : graph_add_node s1 st.1.nfresh (some i) with
     | ok s' => rw [hg] at hr; cases hr
-    | error e2 => exact ⟨_, (add_node_error s1 st.1.nfresh (some i) st.1.afresh e2 hg).2⟩
+    | error e2 =>
+      -- the node object has just been constructed: its `id` is `None`, the guard against re-adding does not fire
+      have hid : (s1.n st.1.nfresh).id = none := by rw [← hn1]; rfl
+      exact ⟨_, (add_node_error_fresh s1 st.1.nfresh (some i) st.1.afresh e2 hid hg).2⟩
 
 /-! ### the asset lookup -/
 
